@@ -6,12 +6,12 @@ import tempfile
 
 from harness.core import hx, unhx, Violation, excname
 
-LEAN_TARGETS = ["PoorProofs.Props.C20"]
-AUDIT_IMPORTS = ["PoorProofs.Props.C20"]
+LEAN_TARGETS = ["PoorProofs.Props.C20", "PoorProofs.Props.C02"]
+AUDIT_IMPORTS = ["PoorProofs.Props.C20", "PoorProofs.Props.C02"]
 LEAN_FILES = ["PoorModel/Html.lean", "PoorModel/Debug.lean", "PoorProofs/Lemmas/Html.lean",
               "PoorProofs/Props/C20.lean"]
 THEOREMS = ["Poor.Props.C20.debug_precedence", "Poor.Props.C20.debug_override_cases",
-            "Poor.Props.C20.pages_diag_free", "Poor.Props.C20.C20_pages",
+            "Poor.Props.C20.pages_diag_free", "Poor.Props.C20.C20_pages", "Poor.Props.C02.C20_route",
             "Poor.Html.diagFree_sound"]
 TRUSTED_BASE = ["translator/pages.py: which holes are diagnostic (handler[...], traceback lines, exc_*, "
                 "req.server_software, req.uri_rule) and the `if req.debug` guards it extracts",
